@@ -3,14 +3,93 @@ from . import modeldiff
 
 RULE = ("seeded histories of 30-120 commands over 1-2 streams, 1-3 groups, 1-4 consumers: XGROUP CREATE ($, 0, explicit, "
         "MKSTREAM, duplicate) / DESTROY / SETID / CREATECONSUMER / DELCONSUMER, XADD / XDEL in between, XREADGROUP > with and "
-        "without COUNT / NOACK, XACK (repeated, unknown, several IDs), XCLAIM (min-idle 0 or 10^9, pending / not-pending IDs, FORCE, "
+        "without COUNT / NOACK, history reads with explicit IDs (own pending entries only, nothing moves), XACK (repeated, unknown, several IDs), XCLAIM (min-idle 0 or 10^9, pending / not-pending IDs, FORCE, "
         "JUSTID), XPENDING summary and extended (range, count, consumer filter), XINFO GROUPS / CONSUMERS; every reply compared "
         "with a model (cursor, pending map id->consumer, consumer set); pending-list walker (VERIF CHECK: by-id <-> by-consumer "
         "indexes, counters, bounds) every 10 commands; cell = (command, pre-state, reply class)")
 
 
+def idle_clock(tier, seed):
+    """What the differential histories cannot see because they run in microseconds: the idle time of a
+    pending entry runs from its LAST delivery (XREADGROUP or XCLAIM), XPENDING reports it, and XCLAIM's
+    min-idle-time is judged against it. Timed with generous margins (steps of 150 ms, decisions need 100 ms)."""
+    import time
+    from .. import server, resp
+    from ..resp import Closed, Timeout
+    from ..util import Result
+    res = Result()
+    binary, _ = server.build("dev")
+    srv = server.Server(binary).start()
+    try:
+        c = srv.client(timeout=10)
+        for rnd in range(2 if tier == "quick" else 10):
+            s = b"ic:%d" % rnd
+            c.cmd("XADD", s, "1-1", "f", "v")
+            c.cmd("XADD", s, "1-2", "f", "v")
+            c.cmd("XGROUP", "CREATE", s, "g", "0")
+            t_deliver = time.monotonic()
+            c.cmd("XREADGROUP", "GROUP", "g", "alice", "STREAMS", s, ">")
+            t_delivered = time.monotonic()      # the delivery happened between these two
+            time.sleep(0.3)
+
+            def idle_of(i):
+                t0 = time.monotonic()
+                rows = c.cmd("XPENDING", s, "g", "-", "+", "10")
+                t1 = time.monotonic()
+                for r in rows if isinstance(rows, list) else []:
+                    if r[0] == i:
+                        return r[2], r[1], t0, t1
+                return None, None, t0, t1
+            idle, owner, t0, t1 = idle_of(b"1-1")
+            res.evaluations += 1
+            res.cell("idle", "after-delivery")
+            lo, hi = (t0 - t_delivered) * 1000, (t1 - t_deliver) * 1000
+            if idle is None or not (lo - 15 <= idle <= hi + 15):
+                res.violation("idle/after-delivery", "entry delivered %.0f..%.0f ms ago: XPENDING reports idle %r (owner %r)" % (lo, hi, idle, owner))
+            # too young for min-idle 1000: nothing is claimed, nothing changes
+            r = c.cmd("XCLAIM", s, "g", "bob", "1000", "1-1")
+            res.evaluations += 1
+            res.cell("idle", "claim-refused-too-young")
+            if r not in ([], None) and r is not resp.NULL_ARRAY:
+                res.violation("idle/claim-too-young", "entry idle ~300 ms, XCLAIM ... bob 1000 1-1 -> %s, expected nothing" % resp.show(r))
+            # old enough for min-idle 200: bob gets it, and the idle clock starts again
+            t_claim0 = time.monotonic()
+            r = c.cmd("XCLAIM", s, "g", "bob", "200", "1-1", "JUSTID")
+            t_claim1 = time.monotonic()
+            res.evaluations += 1
+            res.cell("idle", "claim-accepted")
+            if r != [b"1-1"]:
+                res.violation("idle/claim-old-enough", "entry idle >= 300 ms, XCLAIM ... bob 200 1-1 JUSTID -> %s, expected [1-1]" % resp.show(r))
+                continue
+            idle, owner, t0, t1 = idle_of(b"1-1")
+            res.evaluations += 1
+            res.cell("idle", "after-claim")
+            if owner != b"bob" or idle is None or idle > (t1 - t_claim0) * 1000 + 25:
+                res.violation("idle/not-reset-by-claim", "XCLAIM by bob %.0f ms ago: XPENDING reports owner %r, idle %r (the idle time runs from the claim)" % (
+                    (t1 - t_claim0) * 1000, owner, idle))
+            # a second recovery worker right behind the first: the entry is fresh again and must stay with bob
+            r = c.cmd("XCLAIM", s, "g", "carol", "200", "1-1", "JUSTID")
+            res.evaluations += 1
+            res.cell("idle", "second-claim-refused")
+            idle, owner, t0, t1 = idle_of(b"1-1")
+            if (r not in ([], None) and r is not resp.NULL_ARRAY) or owner != b"bob":
+                res.violation("idle/stolen-after-claim", "bob claimed 1-1 (min-idle 200) a moment ago; carol's XCLAIM ... 200 1-1 -> %s, owner now %r: a freshly claimed entry "
+                              "is not idle" % (resp.show(r), owner))
+            # the untouched neighbour keeps its clock
+            idle2, owner2, t0, t1 = idle_of(b"1-2")
+            res.evaluations += 1
+            if owner2 != b"alice" or idle2 is None or idle2 < (t0 - t_delivered) * 1000 - 25:
+                res.violation("idle/neighbour-changed", "1-2 was not touched: owner %r idle %r, expected alice and >= %.0f ms" % (owner2, idle2, (t0 - t_delivered) * 1000))
+    except (Closed, Timeout) as e:
+        res.inconclusive.append("idle-clock scenario: %r" % (e,))
+    finally:
+        srv.cleanup()
+    return res
+
+
 def run(tier):
-    return modeldiff.run("C16", tier, "gen:gen_group_cmd", RULE, check_every=10, hist_len=(30, 120),
+    return modeldiff.run("C16", tier, "gen:gen_group_cmd", RULE + "; plus a timed scenario for the idle clock (XPENDING idle after delivery and after XCLAIM, "
+                         "min-idle-time refusing young and freshly claimed entries)", check_every=10, hist_len=(30, 120), extra_fn=idle_clock,
                          assumptions=["reference model of consumer-group semantics (Redis command reference)",
-                                      "idle times and delivery counters are not compared; claiming / re-reading deleted entries, "
-                                      "XREADGROUP on a missing key and explicit-ID re-reads are don't-cares and not generated"])
+                                      "delivery counters are not compared; claiming / re-reading deleted entries and "
+                                      "XREADGROUP on a missing key are don't-cares and not generated"])
